@@ -1,9 +1,13 @@
 #!/bin/sh
-# MANIFEST.setup_cmd: verify the environment offline; install hypothesis from the wheelhouse only if missing.
+# MANIFEST.setup_cmd: verify the environment offline; install hypothesis (and atheris) from the wheelhouse only if missing.
 HERE="$(cd "$(dirname "$0")" && pwd)"
 PY="${VP_PYTHON:-/venv/bin/python}"
 if ! PYTHONPATH="$HERE/.deps" "$PY" -c "import hypothesis" 2>/dev/null; then
   "$PY" -m pip install --no-index --find-links /opt/veriftools/wheels --target "$HERE/.deps" hypothesis || exit 2
+fi
+# atheris drives the coverage-guided stage of the thorough tier (skipped, and said so in the evidence, if it cannot be imported)
+if ! PYTHONPATH="$HERE/.deps" "$PY" -c "import atheris" 2>/dev/null; then
+  "$PY" -m pip install --no-index --find-links /opt/veriftools/wheels --target "$HERE/.deps" atheris || echo "setup: atheris not installed; thorough tiers run without the coverage-guided stage"
 fi
 PYTHONPATH="/repo/src:$HERE/.deps" "$PY" -c "import hypothesis, numpy, rdkit, stereomolgraph; print('setup ok', hypothesis.__version__, numpy.__version__, rdkit.__version__, stereomolgraph.__file__)" || exit 2
 mkdir -p "$HERE/evidence"
